@@ -200,3 +200,118 @@ def obj_depth(o):
     if o[0] == 0:
         return 0
     return 1 + max([obj_depth(c) for c in o[2:]] or [0])
+
+
+# ---------------------------------------------------------------- derived pairs
+def _subtrees(o, path=()):
+    yield path, o
+    if o[0] == 1:
+        for i, c in enumerate(o[2:]):
+            yield from _subtrees(c, path + (i,))
+
+
+def _replace(o, path, new):
+    if not path:
+        return new
+    i = path[0]
+    cs = list(o[2:])
+    cs[i] = _replace(cs[i], path[1:], new)
+    return (o[0], o[1], *cs)
+
+
+def make_prefix(rng, o, p=0.3):
+    """replace some non-leaf subtrees by fresh leaves: the result is a prefix of o"""
+    if o[0] == 0:
+        return o
+    if rng.random() < p:
+        return (0, 9000 + rng.randrange(1000))
+    return (o[0], o[1], *[make_prefix(rng, c, p) for c in o[2:]])
+
+
+def vary_dicts(rng, o):
+    """same structure up to dict kind / key order / default factory / deque maxlen"""
+    if o[0] == 0:
+        return o
+    h = o[1]
+    cs = [vary_dicts(rng, c) for c in o[2:]]
+    if h[0] in (3, 4, 5):
+        ks = list(h[1:] if h[0] != 5 else h[2:])
+        perm = list(range(len(ks)))
+        if rng.random() < 0.6:
+            rng.shuffle(perm)
+        ks = [ks[i] for i in perm]
+        cs = [cs[i] for i in perm]
+        k = rng.choice([3, 4, 5]) if rng.random() < 0.6 else h[0]
+        h = (k, *ks) if k != 5 else (5, rng.randrange(0, 5), *ks)
+    elif h[0] == 6 and rng.random() < 0.5:
+        h = (6,) if rng.random() < 0.5 else (6, len(cs) + rng.randrange(0, 3))
+    return (1, h, *cs)
+
+
+def local_edit(rng, o, struct_arity):
+    """one local edit somewhere in o: a near-miss for equality / prefix"""
+    subs = [(p, s) for p, s in _subtrees(o) if s[0] == 1]
+    if not subs:
+        return (1, (1,), o)
+    path, s = rng.choice(subs)
+    h = s[1]
+    cs = list(s[2:])
+    t = h[0]
+    choice = rng.randrange(6)
+    if choice == 0 and t in (1, 2, 6):                    # change sequence kind
+        nh = rng.choice([(1,), (2,), (6,)])
+        new = (1, nh, *cs)
+    elif choice == 1 and t in (1, 2, 6, 7, 9):            # change arity
+        if cs and rng.random() < 0.5:
+            cs = cs[:-1]
+        else:
+            cs = cs + [(0, 8000 + rng.randrange(1000))]
+        if t == 9 and h[3][0] == 2:
+            h = (9, h[1], h[2], (2, *[(0, i) for i in range(len(cs))]))
+        new = (1, h, *cs)
+    elif choice == 2 and t in (3, 4, 5):                  # change one key
+        ks = list(h[1:] if t != 5 else h[2:])
+        if ks:
+            i = rng.randrange(len(ks))
+            nk = (2, 120, 121, rng.randrange(97, 123))
+            if nk not in ks:
+                ks[i] = nk
+        new = (1, (t, *ks) if t != 5 else (5, h[1], *ks), *cs)
+    elif choice == 3 and t == 7:                          # other namedtuple class
+        new = (1, (7, (h[1] + 1) % 4), *cs)
+    elif choice == 3 and t == 9:                          # other metadata / class
+        new = (1, (9, h[1], h[2] + 1, h[3]), *cs) if rng.random() < 0.5 else (1, (9, (h[1] + 1) % 4, h[2], h[3]), *cs)
+    elif choice == 4 and t in (3, 4, 5):                  # drop / add a key
+        ks = list(h[1:] if t != 5 else h[2:])
+        if ks and rng.random() < 0.5:
+            ks = ks[:-1]
+            cs = cs[:-1]
+        else:
+            nk = (2, 113, rng.randrange(97, 123))
+            if nk not in ks:
+                ks.append(nk)
+                cs.append((0, 8000 + rng.randrange(1000)))
+        new = (1, (t, *ks) if t != 5 else (5, h[1], *ks), *cs)
+    elif choice == 5:                                     # None <-> leaf, or wrap
+        new = (1, (0,)) if rng.random() < 0.5 else (1, (1,), s)
+    else:
+        new = (1, (2,), *cs) if t != 2 else (1, (1,), *cs)
+    return _replace(o, path, new)
+
+
+def gen_pair(rng, tg, struct_arity):
+    """(o1, o2, label)"""
+    o = tg.tree()
+    r = rng.random()
+    if r < 0.12:
+        return o, o, 'same'
+    if r < 0.40:
+        return make_prefix(rng, o, rng.choice([0.15, 0.3, 0.6])), vary_dicts(rng, o) if rng.random() < 0.5 else o, 'prefix'
+    if r < 0.55:
+        return o, vary_dicts(rng, o), 'dictvar'
+    if r < 0.72:
+        return make_prefix(rng, o, 0.2), local_edit(rng, vary_dicts(rng, o) if rng.random() < 0.3 else o, struct_arity), 'nearmiss'
+    if r < 0.86:
+        # partially overlapping: two different prefixes of the same tree
+        return make_prefix(rng, o, 0.3), make_prefix(rng, vary_dicts(rng, o) if rng.random() < 0.5 else o, 0.3), 'overlap'
+    return o, tg.tree(), 'unrelated'
